@@ -543,6 +543,7 @@ def check(model, rep, tier):
     v = st.kwargs.get('options')
     if v is not None:
       n_embed += 1
+      v = tpl.expand(st.fi, v, st.call)      # through a local that names it
       okv = isinstance(v, ast.Call) and isinstance(v.func, ast.Attribute) and \
           v.func.attr == 'to_ast' and isinstance(v.func.value, ast.Call) and \
           core.norm(v.func.value.func) == 'self._function_scope_options' and \
